@@ -196,6 +196,7 @@ class Session:
     def classify(self):
         ok, failed, undec, vac = [], [], [], []
         twins = {}
+        anyof = {}
         for v in self.vcs:
             st = v.result["status"]
             if v.kind == "cover":
@@ -205,12 +206,24 @@ class Session:
             if v.kind == "must-fail":
                 twins.setdefault(re.sub(r"@[^@]*$", "", v.id), []).append(v)
                 continue
+            if v.kind.startswith("any-of:"):
+                anyof.setdefault((v.contract, v.path, v.kind), []).append(v)
+                continue
             if st == "unsat":
                 ok.append(v)
             elif st == "sat":
                 failed.append(v)
             else:
                 undec.append(v)
+        # any-of groups (per path): one proved member discharges the group
+        for key, vs in anyof.items():
+            good = [v for v in vs if v.result["status"] == "unsat"]
+            if good:
+                ok.append(good[0])
+            elif all(v.result["status"] == "sat" for v in vs):
+                failed.append(vs[0])
+            else:
+                undec.append(vs[0])
         # a deliberately wrong twin must be refuted on at least one path
         self.twins_refuted = 0
         for name, vs in twins.items():
